@@ -161,6 +161,7 @@ func buildStates(c *xs.Ctx, w *world) []*state {
 		finish(s, &cand{Type: tUserSend, valid: gen(n, send(u1, u2, znn, 100)), owner: ops.Users[u1]})
 		cd := finish(s, &cand{Type: tUserReceive, valid: gen(n, recv(u2, w.named["s1"].Hash)), owner: ops.Users[u2]})
 		cd.hAlreadyReceived, cd.hOtherRecipient, cd.hSecondPending, cd.hReceiveBlock = h("s0"), h("s3"), h("s2"), h("r0")
+		cd.hAlreadyReceivedZero = h("z0")
 		cd = finish(s, &cand{Type: tUserFirst, valid: gen(n, recv(u6, w.named["t6"].Hash)), owner: ops.Users[u6]})
 		cd.hOtherRecipient, cd.hReceiveBlock = h("s3"), h("r0")
 		cd = contractCand(s, n, tContractRecv, "c1")
@@ -180,6 +181,7 @@ func buildStates(c *xs.Ctx, w *world) []*state {
 		finish(s, &cand{Type: tUserSend, valid: gen(n, send(u1, u2, znn, 100)), owner: ops.Users[u1]})
 		cd := finish(s, &cand{Type: tUserReceive, valid: gen(n, recv(u2, w.named["s1"].Hash)), owner: ops.Users[u2]})
 		cd.hAlreadyReceived, cd.hOtherRecipient, cd.hReceiveBlock = h("s2"), h("s3"), h("r0")
+		cd.hAlreadyReceivedZero = h("z0")
 		cd = contractCand(s, n, tContractRecv, "c1b")
 		cd.hAlreadyReceived, cd.hOtherRecipient, cd.hReceiveBlock = h("c1"), h("c2b"), h("r0")
 		cd = contractCand(s, n, tContractSend, "c2b")
